@@ -478,7 +478,10 @@ def r_whocalls(F, cfg):
         takes_buf = False
         for i in range(1, b.argc + 1):
             ts = b.tys(i)
-            if "[num_complex::Complex<" in ts or ts.startswith("*") and "Complex<" in ts:
+            if "Complex<" in ts and ("[" in ts or ts.startswith("*") or "Vec<" in ts or "Box<" in ts or "Arc<[" in ts):
+                takes_buf = True
+            t_ = b.ty(i)
+            if t_["k"] == "param" and any(x in t_["s"] for x in ("LoadStore", "AvxArray", "SseArray", "AsMut<[", "AsRef<[", "DerefMut")):
                 takes_buf = True
         if not takes_buf:
             R.ok(None)
